@@ -392,14 +392,28 @@ func c18CandidateOK(e *Expr, indexByte *types.Func) (string, bool) {
 		return "slice with an upper bound: " + e.String(), false
 	}
 	seen := map[*Expr]bool{}
-	isDotIndex := func(x *Expr) bool {
+	var isDotIndexD func(x *Expr, d int) bool
+	isDotIndexD = func(x *Expr, d int) bool {
 		x = strip(x)
-		if x == nil || !CallTo(indexByte)(x) || x.K != ECall || len(x.Args) != 2 {
+		if x == nil || d > 8 {
+			return false
+		}
+		// a loop variable fed by several IndexByte(…,'.') calls (for idx := IndexByte(..); …; idx = IndexByte(..))
+		if (x.K == EPhi || x.K == EAlloc) && len(x.Args) > 0 {
+			for _, a := range x.Args {
+				if !isDotIndexD(a, d+1) {
+					return false
+				}
+			}
+			return true
+		}
+		if !CallTo(indexByte)(x) || x.K != ECall || len(x.Args) != 2 {
 			return false
 		}
 		v, ok := constInt(x.Args[1])
 		return ok && v == '.'
 	}
+	isDotIndex := func(x *Expr) bool { return isDotIndexD(x, 0) }
 	var okTerm func(x *Expr, d int) bool
 	okTerm = func(x *Expr, d int) bool {
 		x = strip(x)
